@@ -932,8 +932,8 @@ CHECKS = {
     "C08": {
         "bin": "c08",
         "level": "fault_enumeration",
-        "quick": {"shards": 17, "budget_s": 45, "min_evaluations": 150},
-        "thorough": {"shards": 17, "budget_s": 1500, "min_evaluations": 6000},
+        "quick": {"shards": 18, "budget_s": 45, "min_evaluations": 150},
+        "thorough": {"shards": 18, "budget_s": 1500, "min_evaluations": 6000},
         "rule": (
             "18 (operation kind x state class) pairs on TA -> p -> c: ROA "
             "delta (steady / during roll), a REFUSED ROA delta (its only "
